@@ -272,6 +272,11 @@ func c08Tendermint(tier string, st *c08stats) {
 				csv.TimeDelay = delay
 				cs := &csv
 				store := ck.ClientStore(ctx, B)
+				// a consensus state recorded above the latest height (same root as gen 2, processed long ago)
+				if cons, ok := ck.GetClientConsensusState(ctx, B, clienttypes.NewHeight(0, uint64(h2))); ok {
+					ck.SetClientConsensusState(ctx, B, clienttypes.NewHeight(0, uint64(h2+1)), cons)
+					ibctm.SetProcessedTime(store, clienttypes.NewHeight(0, uint64(h2+1)), uint64(t1.UnixNano()))
+				}
 				for _, k := range u {
 					type pv struct {
 						name      string
@@ -406,6 +411,14 @@ func c08MPT(tier string, st *c08stats, kind string) {
 				}
 			}
 			ck.SetClientState(ctx, name, cs)
+			// a consensus state recorded ABOVE the client's latest height (gen-2 root): there only the height bound can
+			// reject the canonical proof
+			above := clienttypes.NewHeight(0, latest+1)
+			if kind == "ETH" {
+				ck.SetClientConsensusState(ctx, name, above, &ethtypes.ConsensusState{Timestamp: 1, Number: above, Root: worlds[2].Root.Bytes()})
+			} else {
+				ck.SetClientConsensusState(ctx, name, above, &bsctypes.ConsensusState{Timestamp: 1, Number: above, Root: worlds[2].Root.Bytes()})
+			}
 			store := ck.ClientStore(ctx, name)
 			heights := map[string]uint64{"gen1": h1, "gen2": h2, "unrecorded": h1 + 1, "latest+1": latest + 1}
 			gens := map[string]int{"gen1": 1, "gen2": 2}
